@@ -1,5 +1,5 @@
-\* observation outside the listed properties: expected to be violated (a dying thread's deferred
-\* disconnect(immediate=True) tears down a successor connection started in between)
+\* self-test: the code as it was before fix 29c3a80 (check outside the lock, disconnect later) must violate
+\* NoCrossTeardown (a dying thread's deferred disconnect(immediate=True) tears down a successor started in between)
 SPECIFICATION Spec
 CONSTANTS
   Users <- MCUsers1
@@ -11,6 +11,7 @@ CONSTANTS
   Reactions <- AllReactions
   HandlerReconnect = TRUE
   SrvMayStall = FALSE
+  HEAtomic = FALSE
   ShutdownBoth = TRUE
   Fixed = TRUE
   Emit = FALSE
